@@ -83,13 +83,19 @@ def yearStructOk (y : Int) (ms : List MonthRec) : Bool :=
   leapMonthOf ms y == (match inY.find? (fun r => decide (r.month < 0)) with | some r => -r.month | none => 0) &&
   decide ((inY.length : Int) = if leapMonthOf ms y == 0 then 12 else 13)
 
-def termsInRange (y : Int) : Bool := decide (1 ≤ y) && decide (y ≤ 9998)
-
 /-- (`monthsFromRawOk` — the table equals the model of `compute` applied to the raw day numbers — is
 checked for every year by the compiled driver op `ly`, not in the kernel: the state-threading
 labelling loop is too slow under kernel reduction, see DESIGN §1.1) -/
+def termsInRange (y : Int) : Bool := decide (1 ≤ y) && decide (y ≤ 9998)
+
+/-- a month containing days of civil year `y` is labelled `y+1` (the lunar year leads the civil
+year) only after that year's Lichun day -/
+def leadOk (y : Int) (ya : YearAstro) : Bool :=
+  ya.months.all fun r => !overlapsCivil y r || decide (r.year ≤ y) ||
+    (termsInRange y && (match ya.terms[4]? with | some lc => decide (lc.jdn < r.first) | none => false))
+
 def yearOk (y : Int) (ya : YearAstro) : Bool :=
-  monthsCoreOk y ya.months &&
+  monthsCoreOk y ya.months && leadOk y ya &&
   (!termsInRange y || termsOk y ya.terms) &&
   (isReformYear y || yearStructOk y ya.months)
 
